@@ -484,7 +484,7 @@ class DependsWorld:
         hows = [('any', 3), ('equal', 2), ('first', 1.5), ('later', 2)]
         for _ in range(n_ops):
             k = weighted(rng, [('attach', 6), ('detach', 1.0), ('leaf', 6), ('leaf2', 1.5), ('swap2', 2 if len(slots) > 1 else 0), ('own', 0.7),
-                               ('subbatch', 1.2), ('swap_twice', 1.0), ('batch_leaf', 1.2),
+                               ('subbatch', 1.2), ('swap_twice', 1.0), ('batch_leaf', 2.0),
                                ('drain', 1.0 if any(m.get('async') for m in methods) else 0)])
             if k == 'drain':
                 ops.append({'op': 'drain'})
@@ -801,13 +801,16 @@ class DependsWorld:
                     n1, n2 = op['n1'] % len(pool), op['n2'] % len(pool)
                     if (variant == 'deep') != (h != 'P') or was is None or (h != 'P' and h not in reachable()):
                         continue
-                    if any(m_.get('async') or m_.get('own') for m_ in cfg['methods']) or \
-                            any('.' not in d or d.endswith('param') for m_ in cfg['methods'] for d in m_['deps']):
+                    def crisp(m_):
+                        # (coroutine methods are counted by another clause; a dependency on the slot itself or on '...param' over
+                        # node-valued parameters falls under don't-care rules of the generic check)
+                        return not m_.get('async') and not any('.' not in d or d.endswith('param') for d in m_['deps'])
+                    if loop is not None or not any(crisp(m_) for m_ in cfg['methods']):
                         continue
                     if len({n1, n2, was}) < 3 or h in (n1, n2) or n1 in reachable() or n2 in reachable() or \
                             (h != 'P' and (h in reachable(n1) or h in reachable(n2))):
                         continue
-                    used_ = [d.split('.')[-1] for m_ in cfg['methods'] for d in m_['deps']]
+                    used_ = [d.split('.')[-1] for m_ in cfg['methods'] if crisp(m_) for d in m_['deps']]
                     p_ = used_[op.get('pi', 0) % len(used_)]
                     if not shape(n1, was, 'first' if variant == 'back' else 'equal') or not shape(n2, was, 'equal'):
                         break
@@ -842,6 +845,8 @@ class DependsWorld:
                     out.stats['op.batch_leaf'] += 1
                     out.stats['probe.leaf_of_newly_attached_object_set_inside_the_batch.' + variant] += 1
                     for mi, m in enumerate(cfg['methods']):
+                        if not crisp(m):
+                            continue
                         if any('UNRESOLVED' in v[mi] for v in (v0, v1, v2, v3)):
                             out.stats['dontcare.path_unresolved'] += 1
                             continue
